@@ -700,10 +700,75 @@ def split_checks(ctx):
     return [(1804, i, o) for i, o in list(zip(ins, outs))[:20]]
 
 
+def permuted_sessions(ctx):
+    """two sessions on ONE output file whose evaluators declare the same groups in a different order: the second session must
+    either be refused or its values must be recovered under the right group (columns never shifted between groups)"""
+    from panoptica import Panoptica_Evaluator, InputType
+    from panoptica.metrics import Metric
+    from panoptica.panoptica_aggregator import Panoptica_Aggregator
+    from panoptica.panoptica_statistics import Panoptica_Statistic
+    from panoptica.utils.segmentation_class import SegmentationClassGroups
+    from panoptica.utils.label_group import LabelGroup
+    rng = ctx.rng
+    for trial in range(3):
+        names = rng.sample(["alpha", "b-eta", "gamma g", "d_elta"], 3)
+        labs = {n: [i + 1] for i, n in enumerate(names)}
+        order2 = names[:]
+        while order2 == names:
+            rng.shuffle(order2)
+
+        def mk(order):
+            return Panoptica_Evaluator(expected_input=InputType.MATCHED_INSTANCE, instance_metrics=[Metric.IOU], global_metrics=[],
+                                       segmentation_class_groups=SegmentationClassGroups({n: LabelGroup(labs[n]) for n in order}))
+        def arr():
+            ref = np.zeros((3, 8), np.uint8); pred = np.zeros((3, 8), np.uint8)
+            for n in names:
+                l = labs[n][0]
+                w = rng.randint(1, 2)
+                ref[l - 1, 0:2 * w] = l
+                if rng.random() < 0.7:
+                    pred[l - 1, 0:w + rng.randint(0, w)] = l
+            return pred, ref
+        with tempfile.TemporaryDirectory() as d:
+            out = Path(d) / "o.tsv"
+            ev1, ev2 = quiet(mk, names), quiet(mk, order2)
+            expect = {}
+            a1 = quiet(Panoptica_Aggregator, ev1, out)
+            p, r = arr()
+            quiet(a1.evaluate, p.copy(), r.copy(), "s1")
+            expect["s1"] = quiet(ev1.evaluate, p.copy(), r.copy())
+            try:
+                a1._Panoptica_Aggregator__exist_handler()
+            except Exception:  # noqa
+                pass
+            refused = False
+            try:
+                a2 = quiet(Panoptica_Aggregator, ev2, out)
+                p, r = arr()
+                quiet(a2.evaluate, p.copy(), r.copy(), "s2")
+                expect["s2"] = quiet(ev2.evaluate, p.copy(), r.copy())
+            except AssertionError:
+                refused = True
+            ctx.count({"permuted_sessions": [names, order2], "refused": refused}, True)
+            ctx.bump("permuted-group-order sessions")
+            st = quiet(Panoptica_Statistic.from_file, str(out))
+            for sname, res in expect.items():
+                one = st.get_one_subject(sname)
+                for g in names:
+                    want = res[g][0].to_dict()
+                    for m in ("tp", "fp", "fn", "num_ref_instances", "num_pred_instances"):
+                        if not same_value(one[g][m], want[m]):
+                            ctx.violation(f"a later session with another group order was accepted and subject {sname!r}, group {g!r}, {m}: "
+                                          f"loaded {one[g][m]} but the result says {want[m]} (columns shifted between groups)",
+                                          {"kind": "permuted_sessions", "groups": names, "order2": order2})
+                            return
+
+
 def run(ctx):
     common.serial_pool()
     rng = ctx.rng
     triples = split_checks(ctx)
+    permuted_sessions(ctx)
     cases = []
     cdir = common.VERIF / "corpus" / "C18"
     if cdir.exists():
